@@ -4,6 +4,7 @@ import (
 	"encoding/json"
 	"fmt"
 	"reflect"
+	"time"
 
 	"github.com/risor-io/risor/op"
 )
@@ -104,9 +105,13 @@ func setField(field reflect.Value, value interface{}) {
 	field.Set(v)
 }
 
+var timeType = reflect.TypeOf(time.Time{})
+
 func newGoField(f reflect.StructField) (*GoField, error) {
 	typ := f.Type
-	if f.Type.Kind() == reflect.Struct {
+	// (a struct type with a converter of its own, time.Time, is a value like
+	// any other and not an object to be reached through a proxy)
+	if f.Type.Kind() == reflect.Struct && f.Type != timeType {
 		typ = reflect.PointerTo(typ)
 	}
 
